@@ -390,3 +390,198 @@ def documented_options_are_read(ctx):
         ob(f"adjusted/{pkg}", got == expect, f"finding-adjusted: the documented options of {pkg} that nothing reads are exactly "
                                              f"{sorted(expect)}; found {sorted(got)}")
     return obs
+
+
+# =================================================================== the configuration path keeps no hidden state
+# Property text (C05 / C08): the configuration a rule sees for a file is determined by the loaded config and that file
+# (its language) -- "honoured identically ... for every linter", "results depend only on current contents and config".
+# The functions that turn the loaded config into a rule's config object must therefore be functions of their arguments:
+# they may not read MODULE-LEVEL MUTABLE STATE (a memo of "the last config built", a registry filled as a side effect...),
+# because such state survives from one file to the next within a run. Mechanical check over the modules on that path:
+#   a module-level name counts as mutable state when some function of the module declares it `global`, or it is bound
+#   to a mutable container (dict/list/set display or constructor) AND the module mutates it somewhere (item store /
+#   delete, mutating method, augmented assignment); caching decorators (functools.cache / lru_cache) on a function
+#   count as hidden state too. Constant tables that are only read are fine.
+CONFIG_PATH_MODULES = ["src/core/linter_utils.py", "src/core/config_parser.py", "src/linter_config/loader.py", "src/core/base.py",
+                       "src/core/python_lint_rule.py"]
+MUTATORS = {"append", "extend", "add", "update", "clear", "setdefault", "pop", "popitem", "insert", "remove", "discard",
+            "sort", "reverse", "__setitem__", "__delitem__"}
+CONTAINER_CTORS = {"dict", "list", "set", "defaultdict", "OrderedDict", "Counter", "deque", "WeakKeyDictionary",
+                   "WeakValueDictionary"}
+
+
+def _root_name(e):
+    while isinstance(e, (ast.Subscript, ast.Attribute)):
+        e = e.value
+    return e.id if isinstance(e, ast.Name) else None
+
+
+def hidden_state_of_module(tree):
+    """(mutable module-level names, {function name: names it touches}, [functions with caching decorators])."""
+    top = {}
+    for st in tree.body:
+        tgt = val = None
+        if isinstance(st, ast.Assign) and len(st.targets) == 1:
+            tgt, val = st.targets[0], st.value
+        elif isinstance(st, ast.AnnAssign) and st.value is not None:
+            tgt, val = st.target, st.value
+        if isinstance(tgt, ast.Name):
+            is_container = isinstance(val, (ast.Dict, ast.List, ast.Set, ast.DictComp, ast.ListComp, ast.SetComp)) or (
+                isinstance(val, ast.Call) and (getattr(val.func, "id", None) or getattr(val.func, "attr", None)) in CONTAINER_CTORS)
+            top[tgt.id] = is_container
+    mutated, globals_ = set(), set()
+    for n in ast.walk(tree):
+        if isinstance(n, ast.Global):
+            globals_.update(n.names)
+        if isinstance(n, (ast.Assign, ast.AugAssign, ast.AnnAssign, ast.Delete)):
+            tgts = n.targets if isinstance(n, (ast.Assign, ast.Delete)) else [n.target]
+            for t in tgts:
+                if isinstance(t, (ast.Subscript, ast.Attribute)) or isinstance(n, ast.AugAssign):
+                    r = _root_name(t)
+                    if r:
+                        mutated.add(r)
+        if isinstance(n, ast.Call) and isinstance(n.func, ast.Attribute) and n.func.attr in MUTATORS:
+            r = _root_name(n.func.value)
+            if r:
+                mutated.add(r)
+    state = {name for name, is_c in top.items() if (is_c and name in mutated)} | (globals_ & set(top)) | globals_
+    touched, cached = {}, []
+    for f in ast.walk(tree):
+        if not isinstance(f, (ast.FunctionDef, ast.AsyncFunctionDef)):
+            continue
+        local = {a.arg for a in f.args.args + f.args.kwonlyargs + f.args.posonlyargs}
+        for n in ast.walk(f):
+            if isinstance(n, ast.Name) and isinstance(n.ctx, ast.Store):
+                local.add(n.id)
+        declared_global = {x for n in ast.walk(f) if isinstance(n, ast.Global) for x in n.names}
+        names = {n.id for n in ast.walk(f) if isinstance(n, ast.Name)}
+        hit = sorted((names & state) - (local - declared_global))
+        if hit:
+            touched[f.name] = hit
+        for d in f.decorator_list:
+            dn = d.func if isinstance(d, ast.Call) else d
+            dname = getattr(dn, "id", None) or getattr(dn, "attr", None)
+            if dname in ("cache", "lru_cache", "cached_property"):
+                cached.append(f.name)
+    return state, touched, cached
+
+
+def config_path_modules(repo):
+    mods = list(CONFIG_PATH_MODULES)
+    base = os.path.join(repo, "src", "linters")
+    for pkg in sorted(os.listdir(base)):
+        p = os.path.join(base, pkg, "config.py")
+        if os.path.exists(p):
+            mods.append(f"src/linters/{pkg}/config.py")
+    return mods
+
+
+LOADER_NAMES = ("_load_config", "_get_config", "_get_config_dict", "_try_load_test_config", "_try_load_production_config")
+
+
+@custom("c05-config-path-stateless", props=["C05", "C08"])
+def config_path_stateless(ctx):
+    repo = ctx["repo"]
+    t0 = time.time()
+    obs = []
+
+    def ob(name, ok, note):
+        obs.append({"name": f"custom:c05-config-path-stateless/{name}", "kind": "custom", "verdict": "discharged" if ok else "refuted",
+                    "solver": "ast-scan", "ms": round((time.time() - t0) * 1000, 1), "note": "" if ok else note, "carries": True,
+                    "witness_confirmed": not ok, "witness": None if ok else note})
+
+    for rel in config_path_modules(repo):
+        p = os.path.join(repo, rel)
+        if not os.path.exists(p):
+            ob(rel, False, f"{rel} is missing")
+            continue
+        with open(p, encoding="utf-8") as fh:
+            tree = ast.parse(fh.read())
+        state, touched, cached = hidden_state_of_module(tree)
+        ok = not touched and not cached
+        ob(rel, ok, f"{rel}: functions {sorted(touched)} use module-level mutable state {sorted(state)}"
+                    f"{'; caching decorators on ' + str(cached) if cached else ''} -- the config built for a file would depend "
+                    f"on earlier files of the run")
+    # the per-rule loader methods of every linter package
+    base = os.path.join(repo, "src", "linters")
+    for pkg in sorted(os.listdir(base)):
+        d = os.path.join(base, pkg)
+        if not os.path.isdir(d) or pkg.startswith("_"):
+            continue
+        bad = []
+        for root, _dirs, files in os.walk(d):
+            for fn in sorted(files):
+                if not fn.endswith(".py") or fn == "config.py":
+                    continue
+                with open(os.path.join(root, fn), encoding="utf-8") as fh:
+                    tree = ast.parse(fh.read())
+                state, touched, cached = hidden_state_of_module(tree)
+                for f in LOADER_NAMES:
+                    if f in touched:
+                        bad.append(f"{fn}::{f} uses {touched[f]}")
+                    if f in cached:
+                        bad.append(f"{fn}::{f} has a caching decorator")
+        ob(f"src/linters/{pkg}/<config loaders>", not bad, f"{pkg}: {'; '.join(bad)}")
+    return obs
+
+
+# ---- bounded native differential for the same clause (labelled bounded; never counted as proved): for every config class
+# with a from_dict, the generic loader called for a SEQUENCE of files of different languages that share one section object
+# must give, for each file, what a fresh from_dict(section, language) gives -- and must leave the section untouched.
+@custom("c05-loader-history-independent", props=["C05", "C08", "C10"])
+def loader_history_independent(ctx):
+    import copy
+    import dataclasses
+    import importlib
+    import sys
+    import types
+    repo = ctx["repo"]
+    t0 = time.time()
+    if repo not in sys.path:
+        sys.path.insert(0, repo)
+    for name in [n for n in sys.modules if n == "src" or n.startswith("src.")]:
+        f = getattr(sys.modules[name], "__file__", "") or ""
+        if f and not os.path.abspath(f).startswith(os.path.abspath(repo) + os.sep):
+            del sys.modules[name]
+    bad, cases = [], 0
+    try:
+        lu = importlib.import_module("src.core.linter_utils")
+        base = os.path.join(repo, "src", "linters")
+        for pkg in sorted(os.listdir(base)):
+            if not os.path.exists(os.path.join(base, pkg, "config.py")):
+                continue
+            mod = importlib.import_module(f"src.linters.{pkg}.config")
+            for cls in [c for c in vars(mod).values() if isinstance(c, type) and dataclasses.is_dataclass(c)
+                        and c.__module__ == mod.__name__ and hasattr(c, "from_dict")]:
+                ints = [f.name for f in dataclasses.fields(cls) if f.type in (int, "int")]
+                bools = [f.name for f in dataclasses.fields(cls) if f.type in (bool, "bool") and f.name != "enabled"]
+                section = {"enabled": True}
+                for i, f in enumerate(ints):
+                    section[f] = 5 + i
+                section["python"] = {f: 3 for f in ints} | {f: False for f in bools[:1]}
+                section["typescript"] = {f: 4 for f in ints[:1]}
+                pristine = copy.deepcopy(section)
+                for order in (("python", "typescript", "rust"), ("typescript", "rust", "python"), ("rust", "python", "typescript")):
+                    for lang in order:
+                        cases += 1
+                        c = types.SimpleNamespace(metadata={pkg: section}, language=lang, file_path=None, file_content="")
+                        try:
+                            got = lu.load_linter_config(c, pkg, cls)
+                            try:
+                                want = cls.from_dict(copy.deepcopy(pristine), language=lang)
+                            except TypeError:
+                                want = cls.from_dict(copy.deepcopy(pristine))
+                        except Exception as e:  # noqa
+                            bad.append(f"{cls.__name__}[{lang}]: {type(e).__name__}: {e}")
+                            continue
+                        if got != want:
+                            bad.append(f"{cls.__name__}: after files {order[:order.index(lang)]} a {lang} file gets {got} instead of {want}")
+                        if section != pristine:
+                            bad.append(f"{cls.__name__}: loading the config of a {lang} file changed the shared section dict to {section}")
+                            section = copy.deepcopy(pristine)
+    except BaseException as e:  # noqa
+        bad.append(f"harness error {type(e).__name__}: {e}")
+    return [{"name": "custom:c05-loader-history-independent/all-config-classes", "kind": "bounded",
+             "verdict": "refuted" if bad else "passed", "tool": "native differential", "budget": f"{cases} loads", "cases": cases,
+             "note": "; ".join(bad)[:700], "solver": "native", "ms": round((time.time() - t0) * 1000, 1),
+             "witness_confirmed": bool(bad), "witness": "; ".join(bad)[:700] or None}]
